@@ -96,7 +96,7 @@ func RunCheck(opt Options) int {
 	// units
 	keys := en.unitsFor(opt.Property)
 	var lemmas []*Lemma
-	for _, l := range cs.Lemmas {
+	for _, l := range append(append([]*Lemma{}, cs.Lemmas...), shapeLemmas(prog, cs)...) {
 		if opt.Property == "" || hasProp(l.Props, opt.Property) {
 			lemmas = append(lemmas, l)
 		}
